@@ -251,7 +251,7 @@ Proof. exact align_mode_partial. Qed.
 Print Assumptions align_keyword_partial.
 
 Example align_example :
-  align [97; 98] [49; 50; 51; 52; 53; 54; 55] ACenter = [49; 50; 97; 98; 53; 54; 55]%N
+  align [97; 98]%N [49; 50; 51; 52; 53; 54; 55]%N ACenter = [49; 50; 97; 98; 53; 54; 55]%N
   /\ align_guard gen_align_right = true /\ align_guard [108; 101; 102; 116]%N = true /\ align_mode_of [] = ALeft.
 Proof. vm_compute. repeat split; reflexivity. Qed.
 
